@@ -252,10 +252,19 @@ _STATE_BASELINE: dict[tuple[str, str], Any] = {}
 _STATE_LRU: list[Any] = []
 
 
+_STATE_SCALARS: dict[tuple[str, str], Any] = {}
+_STATE_CLASS: dict[tuple[Any, str], Any] = {}
+_STATE_OBJ: list[tuple[Any, dict]] = []
+_SCALAR_TYPES = (int, float, str, bytes, bool, type(None), tuple, frozenset)
+_CLASS_DENY = {"_nodes", "_sources", "_instance"}
+
+
 def _scan_module_state() -> None:
-    """Hidden-state hygiene: remember every module-level container of pyoak's (non-legacy-registry)
-    modules and every lru_cache outside pyoak.typing, so that the per-path reset can put them
-    back.  A path must never depend on the paths explored before it in the same process."""
+    """Hidden-state hygiene: remember every module-level container and scalar of pyoak's modules,
+    every mutable class-level attribute of the classes they define, the attributes of module-level
+    singleton instances of those classes (transformers, interpreters) and every lru_cache outside
+    pyoak.typing, so that the per-path reset can put them back.  A path must never depend on the
+    paths explored before it in the same process."""
     import sys
 
     for name, mod in list(sys.modules.items()):
@@ -268,9 +277,22 @@ def _scan_module_state() -> None:
                 _STATE_BASELINE[(name, attr)] = (val, type(val)(val))
             elif isinstance(val, functools._lru_cache_wrapper) and name != "pyoak.typing" and not any(val is x for x in _STATE_LRU):
                 _STATE_LRU.append(val)
+            elif type(val) in _SCALAR_TYPES and name != "pyoak.config" and (name, attr) not in _STATE_SCALARS:
+                _STATE_SCALARS[(name, attr)] = val
+            elif isinstance(val, type) and getattr(val, "__module__", None) == name:
+                for cattr, cval in list(vars(val).items()):
+                    if cattr in _CLASS_DENY or (cattr.startswith("__") and cattr.endswith("__")):
+                        continue
+                    if type(cval) in (dict, list, set) and (val, cattr) not in _STATE_CLASS:
+                        _STATE_CLASS[(val, cattr)] = type(cval)(cval)
+            elif not isinstance(val, type) and getattr(type(val), "__module__", "").startswith("pyoak") and hasattr(val, "__dict__") and not callable(val) is None:
+                if getattr(type(val), "__module__", "") == name and not any(val is o for o, _ in _STATE_OBJ) and not hasattr(type(val), "__dataclass_fields__"):
+                    _STATE_OBJ.append((val, dict(vars(val))))
 
 
 def _restore_module_state() -> None:
+    import sys
+
     for (_m, _a), (obj, base) in _STATE_BASELINE.items():
         if obj != base:
             obj.clear()
@@ -280,6 +302,21 @@ def _restore_module_state() -> None:
                 obj.extend(base)
             else:
                 obj.update(base)
+    for (mname, attr), base in _STATE_SCALARS.items():
+        mod = sys.modules.get(mname)
+        if mod is not None:
+            cur = getattr(mod, attr, base)
+            if type(cur) is not type(base) or cur != base:
+                setattr(mod, attr, base)
+    for (cls, attr), base in _STATE_CLASS.items():
+        cur = cls.__dict__.get(attr, base)
+        if type(cur) is not type(base) or cur != base:
+            setattr(cls, attr, type(base)(base))
+    for obj, base in _STATE_OBJ:
+        cur = vars(obj)
+        if cur.keys() != base.keys() or any(cur[k] is not base[k] and cur[k] != base[k] for k in base):
+            cur.clear()
+            cur.update(base)
     for fn in _STATE_LRU:
         fn.cache_clear()
 
@@ -326,10 +363,10 @@ def reset_all() -> None:
     import sys
 
     m = sys.modules.get("pyoak.match.xpath")
-    if m is not None:
+    if m is not None and hasattr(getattr(m, "_AST_XPATH_CACHE", None), "clear"):
         m._AST_XPATH_CACHE.clear()
     m = sys.modules.get("pyoak.match.pattern")
-    if m is not None:
+    if m is not None and hasattr(getattr(m, "_MATCHER_CACHE", None), "clear"):
         m._MATCHER_CACHE.clear()
     m = sys.modules.get("pyoak.legacy.node")
     if m is not None:
@@ -617,6 +654,21 @@ class VNcKid(VBase):
 
 
 CLASSES["VNcKid"] = VNcKid
+
+
+@dataclass(frozen=True)
+class VKids(VBase):
+    """Fields named like public attributes of the node base class: a child field called `children`
+    (it shadows ASTNode's convenience property of that name; the library's own tests use such a
+    field) next to another child field, and a property called `fields`."""
+
+    v: int = 0
+    func: VBase | None = None
+    children: tuple[VBase, ...] = ()
+    fields: int = 0
+
+
+CLASSES["VKids"] = VKids
 _STAMPS = __import__("itertools").count(1)
 
 
